@@ -62,6 +62,17 @@ def _rank(e: ast.AST) -> int:
     return 0
 
 
+class _N13(ast.NodeTransformer):
+    """getattr(x, '<identifier>') with exactly two arguments is x.<identifier>."""
+    def visit_Call(self, n):
+        self.generic_visit(n)
+        if isinstance(n.func, ast.Name) and n.func.id == 'getattr' and len(n.args) == 2 and not n.keywords \
+                and isinstance(n.args[1], ast.Constant) and isinstance(n.args[1].value, str) and n.args[1].value.isidentifier() \
+                and not n.args[1].value.startswith('__'):
+            return ast.copy_location(ast.Attribute(value=n.args[0], attr=n.args[1].value, ctx=ast.Load()), n)
+        return n
+
+
 class _N2(ast.NodeTransformer):
     def visit_Compare(self, n):
         self.generic_visit(n)
@@ -246,6 +257,7 @@ def _n7(tree: ast.AST):
 
 def normalise(tree: ast.Module) -> ast.Module:
     _n1(tree)
+    _N13().visit(tree)
     _N2().visit(tree)
     _n3(tree)
     _n4(tree)
@@ -315,8 +327,15 @@ def _roots(e: ast.AST) -> Set[str]:
     return {x.id for x in ast.walk(e) if isinstance(x, ast.Name) and isinstance(x.ctx, ast.Load)}
 
 
-def _kills(st: ast.AST, roots: Set[str], reads_heap: bool, var: str) -> bool:
-    """Can executing statement `st` change the value of an expression over `roots`?"""
+def _kills(st: ast.AST, roots: Set[str], reads_heap: bool, var: str, paths: Optional[Set[str]] = None, self_name: Optional[str] = None) -> bool:
+    """Can executing statement `st` change the value of an expression over `roots`?  `paths`: the access paths the expression
+    reads from its heap roots (`self.options`, `line_ctr.char_pos`): only a store to one of them (or to a prefix / extension of
+    it), or a non-pure method call on an object on such a path, counts -- a call on the function's own `self` does not (an
+    object's methods do not usually rebind the attributes its constructor is reading)."""
+    paths = paths or set()
+
+    def related(p: str) -> bool:
+        return any(q == p or q.startswith(p + '.') or q.startswith(p + '[') or p.startswith(q + '.') or p.startswith(q + '[') for q in paths)
     for x in ast.walk(st):
         if isinstance(x, ast.Name) and isinstance(x.ctx, (ast.Store, ast.Del)) and x.id in roots:
             return True
@@ -328,7 +347,7 @@ def _kills(st: ast.AST, roots: Set[str], reads_heap: bool, var: str) -> bool:
             base = x
             while isinstance(base, (ast.Attribute, ast.Subscript)):
                 base = base.value
-            if isinstance(base, ast.Name) and base.id in roots:
+            if isinstance(base, ast.Name) and base.id in roots and (not paths or related(ast.unparse(x))):
                 return True
         if isinstance(x, ast.Call):
             f = x.func
@@ -337,12 +356,11 @@ def _kills(st: ast.AST, roots: Set[str], reads_heap: bool, var: str) -> bool:
                 while isinstance(base, (ast.Attribute, ast.Subscript)):
                     base = base.value
                 if isinstance(base, ast.Name) and base.id in roots:
-                    return True
-            for a in list(x.args) + [k.value for k in x.keywords]:
-                if isinstance(a, ast.Name) and a.id in roots:
-                    if isinstance(f, ast.Name) and f.id in PURE_FUNCS:
+                    recv = ast.unparse(f.value)
+                    if recv == self_name:
                         continue
-                    return True
+                    if not paths or related(recv):
+                        return True
     return False
 
 
@@ -445,6 +463,17 @@ def _n5_function(fn: ast.AST):
                                     base = base.value
                                 if isinstance(base, ast.Name):
                                     heap_roots.add(base.id)
+                    # maximal attribute / item paths the expression reads
+                    read_paths: Set[str] = set()
+                    inner_ids = set()
+                    for x in ast.walk(s.value):
+                        if isinstance(x, (ast.Attribute, ast.Subscript)) and id(x) not in inner_ids:
+                            read_paths.add(ast.unparse(x))
+                            y = x.value
+                            while isinstance(y, (ast.Attribute, ast.Subscript)):
+                                inner_ids.add(id(y))
+                                y = y.value
+                    self_nm = fn.args.args[0].arg if fn.args.args else None
                     # what can change the value only matters up to the last use -- or anywhere inside a loop that also holds a use
                     last_line = max(getattr(x, 'lineno', 0) for x in loads)
 
@@ -465,7 +494,7 @@ def _n5_function(fn: ast.AST):
                                 if isinstance(sub, (ast.For,)) and sub.target is not None:
                                     if any(isinstance(x, ast.Name) and x.id in roots for x in ast.walk(sub.target)):
                                         return True
-                            if _kills(own, roots - heap_roots, False, v) or _kills(own, heap_roots, True, v):
+                            if _kills(own, roots - heap_roots, False, v) or _kills(own, heap_roots, True, v, read_paths, self_nm):
                                 return True
                         return False
                     if any(_relevant_kill(st) for st in later[:last + 1]):
@@ -915,10 +944,11 @@ def _p2(trees: Dict[str, ast.Module]) -> int:
     known = known_names()
     funcs, classes, methods = _collect_defs(trees)
     n_inlined = 0
+    local_defs: Dict[str, ast.FunctionDef] = {}
 
-    def candidate(fn: ast.FunctionDef) -> bool:
+    def candidate(fn: ast.FunctionDef, nested_ok: bool = False) -> bool:
         nm = fn.name
-        if not nm.startswith('_') or nm.startswith('__') or nm in known:
+        if nm.startswith('__') or nm in known or (not nm.startswith('_') and not nested_ok):
             return False
         if any(not (isinstance(d, ast.Name) and d.id in ('staticmethod', 'classmethod')) for d in fn.decorator_list):
             return False
@@ -961,6 +991,12 @@ def _p2(trees: Dict[str, ast.Module]) -> int:
     def resolve(mname: str, cls: Optional[ast.ClassDef], call: ast.Call):
         """(helper fn, receiver expr or None) for a call that can be looked through."""
         f = call.func
+        if isinstance(f, ast.Name) and f.id in local_defs:
+            # a local helper function of the function being rewritten (a closure: same scope, nothing to rebind)
+            lf = local_defs[f.id]
+            if candidate(lf, nested_ok=True):
+                return lf, None
+            return None
         if isinstance(f, ast.Name):
             cands = [fn for m_, fn in funcs.get(f.id, []) if m_ == mname]
             if len(cands) == 1 and candidate(cands[0]):
@@ -993,6 +1029,11 @@ def _p2(trees: Dict[str, ast.Module]) -> int:
             if isinstance(n, ast.FunctionDef):
                 work.append((None, n))
         for cls, fn in work:
+            local_defs.clear()
+            for x in ast.walk(fn):
+                if x is not fn and isinstance(x, ast.FunctionDef):
+                    # only helpers defined directly in this function's blocks (not inside another nested def)
+                    local_defs[x.name] = x
             for _round in range(3):
                 changed = False
                 # expression helpers anywhere
